@@ -429,6 +429,20 @@ def p_c11_tele(tr, V, st):
                     V.append(dict(sig='C11 telemetry line shows text its device did not send on this connection', at=p.i, fd=fd, dev=di, line=repr(ln[:160]), stream_tail=repr(cand.get(di, b'')[-80:])))
 
 
+def p_c06_served(tr, V, st):
+    """every connection the daemon accepts is in its client table at the end of that pass, with the banner and a prompt queued
+    or written (a connection accepted but unreachable is never greeted, served or closed)"""
+    for p in tr:
+        if p.teardown or p.died: break
+        for l in p.sys:
+            if l[0] == 'accept' and int(l[1]) >= 0:
+                fd = int(l[1]); st['C06 accepted connections checked'] += 1
+                c = p.clients.get(fd)
+                out = (c['to'] if c else b'') + p.writes.get(fd, {}).get('data', b'')
+                if c is None or not out.startswith(b'001 '):
+                    V.append(dict(sig='C06 accepted connection is not served (not in the client table, or no banner queued)', at=p.i, fd=fd, table=sorted(p.clients)))
+
+
 def p_c11_events(tr, V, st):
     """readiness reported for one descriptor is never acted on for another: in every pass the daemon reads only from descriptors
     the poll of that very pass reported readable (a stale or foreign event would make it read - and, on EAGAIN, drop - an
